@@ -13,6 +13,9 @@ PKG_DOCS = {
     "zcvpkg_c": [TYPE("pc1", [K("k1")], implements="abs2")],
     # extends a type of the importing schema under another key type (wildcard defaults are re-keyed)
     "zcvpkg_d": [TYPE("pd1", [K("own")], extends="wbase", keytype="identifier", implements="abs1")],
+    # two packages that define the same type name, only one of them as an implementer of abs1
+    "zcvpkg_x": [TYPE("dupt", [K("k1")], implements="abs1")],
+    "zcvpkg_y": [TYPE("dupt", [K("k1")])],
 }
 # types the importing schema must define for a package to make sense (used to expand the component)
 CONTEXT = [schemas.ABS("abs1"), schemas.ABS("abs2"),
